@@ -970,6 +970,33 @@ def rule_polytope_roundtrip(ctx: Ctx, rule: str = "matrix-roundtrip") -> None:
                     if len(args) == 2 and args[0] == tgt[1] and args[1] == ("param", "const"):
                         okc = True
     (ctx.ok(rule, p2t.key, construct) if okc else ctx.violation(rule, p2t.key, construct, "unexpected shape", where=p2t.where))
+    # ... for every entry: a path that stores nothing for a position may only do so because the entry is exactly zero
+    construct = "polytope_to_term: no non-zero coefficient is left out"
+    dropped = []
+    for p in ps:
+        if p.terminal != "return":
+            continue
+        st = [e for e in p.events if e["kind"] == "store"]
+        if st:
+            continue
+        tests = [(e["test"], e["taken"]) for e in p.events if e["kind"] == "branch"]
+
+        def zero_test(t, taken) -> bool:
+            while isinstance(t, tuple) and t and t[0] == "un" and t[1] == "Not":
+                t, taken = t[2], not taken
+            if isinstance(t, tuple) and t and t[0] == "cmp" and t[1] in ("Eq", "NotEq") and const(0) in (t[2], t[3]):
+                x = t[3] if t[2] == const(0) else t[2]
+                if isinstance(x, tuple) and x[0] == "sub" and x[1] == ("param", "poly"):
+                    return (t[1] == "Eq") == taken  # the path is taken when the entry equals zero
+            return False
+
+        if tests and all(zero_test(t, k) for t, k in tests if mentions(t, lambda y: y == ("param", "poly"))) and any(mentions(t, lambda y: y == ("param", "poly")) for t, _ in tests):
+            continue
+        dropped.append("; ".join("%s is %s" % (show(t, 4), k) for t, k in tests) or "(unconditionally)")
+    if dropped:
+        ctx.violation(rule, p2t.key, construct, "an entry of the row is not stored when %s: a small but non-zero coefficient changes what the term says (times a variable of size 1000 it outweighs the tolerance)" % dropped[0], where=p2t.where)
+    else:
+        ctx.ok(rule, p2t.key, construct)
     # polytope_to_termlist: row i with vector[i], same `variables`
     b = prog.func(PTL + "polytope_to_termlist")
     ps = [p for p in Sim(prog, b, loop_iters=(1,)).paths() if p.calls("polytope_to_term")]
